@@ -83,7 +83,8 @@ def main():
     b = fn_body(p, "parse_name")
     fact("name", "alpha1" if "alpha1::<_, Error<&str>>(expr)" in b else None)
     b = fn_body(p, "parse_const")
-    fact("const", "double" if "double::<_, Error<&str>>(expr)" in b and "Expr::Const(T::from(c))" in b else None)
+    guard = re.search(r"Ok\(\(rest, _\)\)\s*if expr\[\.\.expr\.len\(\) - rest\.len\(\)\]\.ends_with\(\|ch: char\| ch\.is_ascii_alphabetic\(\)\)\s*&& rest\.starts_with\(\|ch: char\| ch\.is_ascii_alphabetic\(\)\) =>\s*\{\s*Err\(", b)
+    fact("const", ("double" + (";word-guard" if guard else "")) if "double::<_, Error<&str>>(expr)" in b and "Expr::Const(T::from(c))" in b else None)
     b = fn_body(p, "parse_neg_count")
     fact("negcount", "fold_many0-minus" if 'fold_many0(tag("-"), || 0usize, |accu, _| (accu + 1))(expr)' in b else None)
     # compile_expression
